@@ -48,7 +48,7 @@ def ref_add(ts, tf, delta):
     return secs, frac, carry
 
 
-@obligation(prop="C07", tier="quick", timeout=900, probe="time_add",
+@obligation(prop="C07", also=("C15",), tier="quick", timeout=900, probe="time_add",
             desc="overflowing_add_signed(time, delta) follows the documented leap-second rules (stay in / leave / skip the operand's own leap second) and otherwise wraps modulo 24 h with the carry reported in whole days (as seconds); result is a valid time; overflowing_sub_signed(x) is overflowing_add_signed(-x) with the same time and the carry negated (days borrowed), as documented",
             bounds="all times of day incl. leap representations on any second (86400 x 2*10^9) x all in-range TimeDeltas")
 def c07_m_time_add(o):
@@ -78,7 +78,7 @@ def ref_pos_pair(as_, af, bs, bf):
     return (as_ - bs) * G + (af - bf) + adj
 
 
-@obligation(prop="C07", tier="quick", timeout=600, probe="time_diff",
+@obligation(prop="C07", also=("C15",), tier="quick", timeout=600, probe="time_diff",
             desc="NaiveTime::signed_duration_since is the exact distance on the documented timeline (leap operands count their own leap second), a well-formed in-range TimeDelta, antisymmetric: (a-b) == -(b-a); for two non-leap times it is the plain difference",
             bounds="all pairs of times of day incl. leap representations")
 def c07_m_time_diff(o):
@@ -99,7 +99,7 @@ def c07_m_time_diff(o):
     o.claim("plain_difference_without_leap", z3.Implies(z3.And(af < G, bf < G), v1 == (as_ * G + af) - (bs * G + bf)))
 
 
-@obligation(prop="C07", tier="quick", timeout=600, probe="time_offset",
+@obligation(prop="C07", also=("C15",), tier="quick", timeout=600, probe="time_offset",
             desc="overflowing_add_offset / overflowing_sub_offset shift the second-of-day by the offset modulo one day, report the day carry (-1, 0, +1) and keep the (possibly leap) fraction unchanged",
             bounds="all times of day incl. leap representations x all offsets in (-86400, 86400) s")
 def c07_m_time_offset(o):
